@@ -54,9 +54,72 @@ CHECKS = {
         note=TB + "Modelled, not verified: one client handle at a time; concurrency on the state field; device.manager.cpp/loader.c are "
              "replaced by a stub handing out the mock driver. Stated reading for storage: 'started' = the state the driver last returned. Axioms: none.",
         technique="Coq proof by induction over call/response histories of a HAL model; differential vs the real HAL with a freeing mock driver under ASan"),
+    "C10": dict(
+        family="average", design="6.10",
+        text="Machine-checked proof (Coq + Flocq binary32) over an executable model of filter.c's accumulate/normalize and of the "
+             "window bookkeeping of process_data/video_filter_thread as a fold over ANY packetisation of the input frames: with the "
+             "accumulator zeroed and k*maxval < 2^24 every partial sum is exact (C10_sum_exact), the emitted pixel is "
+             "round32(sum * round32(1/k)) (C10_mean_value), and for N frames the filter emits, in order, one f32 frame per complete "
+             "window [ik,(i+1)k) with the id of its first frame, plus at most one frame for a trailing incomplete window, no input frame "
+             "skipped or counted twice, independent of packet boundaries and of the end-of-stream flush meeting a lap boundary "
+             "(C10_windows, C10_filter_emits_means). Tied to the code on every run by driving the real video_filter_thread/process_data "
+             "(filter.c, channel.c, frame_iterator.c unmodified) on small rings pre-filled with non-zero bytes and comparing every output "
+             "frame bit for bit with the extracted model; an independent exact-rational oracle states C10 over the implementation's output.",
+        note=TB + "Modelled, not verified: the filter thread runs single-threaded with the harness playing source and sink (thread "
+             "interleaving of source/filter/sink is the pipeline family's concern); k*maxval >= 2^24 (u16 with k > 256) is outside "
+             "C10_sum_exact and reported; f32 input is rejected by the code. Axioms (Flocq/Reals, standard library): "
+             "ClassicalDedekindReals.sig_forall_dec, sig_not_dec, FunctionalExtensionality.functional_extensionality_dep, Classical_Prop.classic "
+             "where a theorem's Print Assumptions lists them (see evidence axioms_per_theorem).",
+        technique="Coq/Flocq proof of exact binary32 accumulation + induction over packetisations of the window fold; bit-for-bit differential vs the real filter.c on dirty rings"),
+    "C12": dict(
+        family="select", design="6.12",
+        text="Machine-checked proof over an executable model of device_manager_select/get/open (device.manager.cpp, loader.c, driver.c): "
+             "for ANY regex engine (compile/exec as section variables) select returns the first enumerated identifier of the kind whose "
+             "whole name matches (any for the empty pattern), NUL padding is irrelevant, opening an enumerated identifier yields that kind and "
+             "name, and unknown kinds / no match / malformed patterns / bad indices / absent drivers give Err (the model is total); "
+             "instantiated with a Brzozowski-derivative matcher proved equal to the denotational semantics (Regex_matchb_correct) with case "
+             "folding, whole-name (not substring) matching and an ECMAScript-fragment parser. Tied to the code on every run by linking the "
+             "real device.manager.cpp/loader.c/driver.c/platform.c against the real common driver .so plus stub drivers for the optional "
+             "libraries, over presence subsets, with fragment patterns (exact prediction), mutated names, NUL padding, malformed and arbitrary "
+             "byte patterns (no crash, no escaping exception, Err or an enumerated identifier of the kind).",
+        note=TB + "Modelled, not verified: libstdc++ std::regex is an oracle in the theorems; its agreement with the verified matcher is tested on the "
+             "generated fragment only; dlopen; catastrophic backtracking time. Axioms: none.",
+        technique="Coq proof of first-match selection for any matcher + verified derivative regex matcher; differential vs the real device manager over driver-presence subsets"),
+    "C15": dict(
+        family="tiff", design="6.15",
+        text="Machine-checked proof over an executable byte-level model of tiff.cpp and side-by-side-tiff.cpp (header, 336-byte IFDs, strips, "
+             "string sections, decimal printing of the JSON description, 32-bit truncations, termination write) and an independent BigTIFF "
+             "decoder in Coq: for every device state, file system, valid cycle (any shapes/sample types/N>=1 frames/packet grouping/metadata/"
+             "pixel scale/URI spelling) decode(file(encode fs)) returns every frame's width, height, bits, format, pixel bytes, ids and "
+             "timestamps and the metadata on frame 0 (C15_roundtrip); the chain has exactly N directories and ends in a zero link (C15_chain); "
+             "all regions are inside the file and pairwise disjoint (C15_in_bounds, C15_disjoint); the statements hold for each of any number "
+             "of start/stop cycles on one device (C15_cycles), for tiff-json's data.tif and metadata.json (C15_side_by_side), and do not depend "
+             "on packet grouping (C15_grouping). Tied to the code on every run by comparing the files the real writers produce, byte for byte, "
+             "with the extracted model (syscalls on a real directory, pre-existing files included); an independent Python BigTIFF reader "
+             "states C15 over the implementation's files.",
+        note=TB + "Modelled, not verified: vsnprintf as decimal printing; POSIX open/pwrite/ftruncate as a map from paths to byte lists; realloc failure; "
+             "JSON well-formedness of user metadata. 'Valid BigTIFF' = the structural clauses of the property (tag order / y-resolution quirk recorded in evidence). Axioms: none.",
+        technique="Coq proof of encode/decode round-trip, chain termination, bounds and disjointness over a byte-level writer model; byte-for-byte file differential vs the real tiff writers"),
+    "C17": dict(
+        family="simgeom", design="6.17",
+        text="Machine-checked proof over an executable geometry model of simulated.camera.c, bin2.avx2.c, bin2.plain.c, imfill.pattern.cpp: for "
+             "every camera kind, both bin2 variants, all sample types, every binning byte, every requested shape/offset/exposure and every "
+             "well-formed history of set/get/start/get_frame/stop (induction, unbounded): accepted iff binning is a power of two, reported "
+             "dims = clamp, strides (1,1,w,w*h), get returns the values in effect (C17_shape), get_frame writes exactly bytes_of_image of the "
+             "reported shape (C17_copy_exact), every access class of a frame (fill at full resolution, every bin pass, copy-out) stays inside "
+             "the block it works on (C17_in_bounds), every access is aligned for a 16-aligned allocation (C17_aligned), all of it after any "
+             "re-configuration (C17_reconfig). Tied to the code on every run by (i) extent-tightness probes: each real routine runs on an ASan "
+             "buffer of exactly the model's extent (clean) and extent-1 (flagged), and at the model's alignment (clean) and half of it (UBSan), "
+             "(ii) set/get histories with the allocation log compared, (iii) whole-camera histories under ASan/UBSan with sentinel-filled caller "
+             "buffers, (iv) native runs.",
+        note=TB + "Modelled, not verified: set while the streamer thread renders (a data race the sequential geometry model does not express; exercised "
+             "only with size-preserving re-sets under ASan); allocation failure; sample-type codes outside the enum (rejected configurations are "
+             "outside the property: the D23 double free is recorded in evidence as out of domain); pixel values. Axioms: none.",
+        technique="Coq proof (lia/nia floor-ceil arithmetic, induction over histories) of access extents <= allocation; ASan/UBSan extent-tightness probes and whole-camera differential"),
 }
 
-NOT_APPLICABLE = []
+PENDING = "not claimed at this commit: the Coq model, theorems and correspondence check for this property are under construction in fam/ (see DESIGN.md section 9); machine-checked proof does apply to it"
+NOT_APPLICABLE = [{"property_id": p, "reason": PENDING} for p in ["C%02d" % i for i in range(1, 19)] if p not in CHECKS]
 
 
 def main():
